@@ -415,6 +415,9 @@ def diff(root, wrt):
     for t in reachable([root]):
         o = t.op
         a = t.args
+        if t.sort != 'R':
+            D[t.id] = Fraction(0)      # Boolean / integer sub-terms (conditions of ite): no derivative
+            continue
         if o == 'sym':
             d = wrt.get(a[0], Fraction(0))
         elif o == 'add':
